@@ -53,7 +53,12 @@ func c04Value(name string, depth int) *c04V {
 func c04Map(name string, maxEntries int, depth int) *c04V {
 	m := &c04V{kind: 1}
 	n := verifChoice(name+"_n", maxEntries+1)
+	firstDepth := depth
 	for i := 0; i < n; i++ {
+		depth = firstDepth
+		if i > 0 && c04LaterDepth >= 0 {
+			depth = c04LaterDepth // entries after the first may be kept shallower to bound the product
+		}
 		k := verifStrN(name+"_k"+verifItoa(int64(i)), 1, "ac")
 		for _, prev := range m.keys {
 			verifAssume(!verifEqStr(prev, k))
@@ -205,6 +210,15 @@ func VerifC04Merge() {
 func VerifC04MergeWide() {
 	c04MergeBody(verifParam("wide_entries", 2), verifParam("wide_depth", 0))
 }
+
+// VerifC04MergeMixed: two entries per side, the first with a nested value (map / sequence), the second scalar.
+func VerifC04MergeMixed() {
+	c04LaterDepth = 0
+	c04MergeBody(verifParam("mixed_entries", 2), verifParam("mixed_depth", 1))
+	c04LaterDepth = -1
+}
+
+var c04LaterDepth = -1
 
 func c04MergeBody(entries, depth int) {
 	a := c04Map("a", entries, depth)
